@@ -24,6 +24,14 @@ class Sym:
         self.du = mir.defuse_of(self.body)
         self.argc = self.body["argc"]
         self._memo = {}
+        # locals whose address is taken mutably: their value can change behind the single definition
+        self.mut_borrowed = set()
+        for bb in self.body["bbs"]:
+            for st in bb["s"]:
+                if st["k"] == "as" and st["rv"]["k"] in ("ref", "rawptr") and str(st["rv"].get("m", "")).lower().startswith("mut"):
+                    pl = st["rv"]["p"]
+                    if not any(e.get("k") == "deref" for e in pl.get("p", [])):
+                        self.mut_borrowed.add(pl["l"])
 
     # ---- terms ---------------------------------------------------------------------------
     def local(self, l, depth=0):
@@ -41,7 +49,7 @@ class Sym:
         defs = self.du.defs.get(l, [])
         whole = [d for d in defs if d[1] == 't' or (d[2]["k"] == "as" and not d[2]["p"].get("p"))]
         partial = [d for d in defs if d not in whole]
-        if len(whole) != 1 or partial:
+        if len(whole) != 1 or partial or (l in self.mut_borrowed and not (1 <= l <= self.argc)):
             t = ('var', l)
             self._memo[l] = t
             return t
